@@ -149,6 +149,11 @@ func body12(s scn, otel bool, foreign string, f fault) Body {
 		if f.kind == "exc" {
 			inj = &Inject{G: f.k, Stop: true, Bytes: c.W.Exception(excReadonly)}
 		}
+		if f.kind == "extradata" {
+			// the server repeats its header block while the sender is using the column info
+			eb := append(c.W.Data(0, Col("v", "UInt64")), c.W.Data(0, Col("v", "UInt64"))...)
+			inj = &Inject{G: f.k, Bytes: eb}
+		}
 		q, steps := s.mk(c, fa)
 		c.RunPeer("peer", c.HsLen, steps, inj)
 		ctx, cancel := context.WithCancel(context.Background())
@@ -258,7 +263,7 @@ func raceProbeBody() Outcome {
 // C12 — no data race inside the library: the schedules enumerated by the explorer are run
 // under the Go race detector (the scheduler's barrier adds no happens-before edges).
 func C12(c *vk.Ctx) {
-	c.Rule("query scenarios of C04 (insert with progress, streamed insert, LZ4 insert, select, select with logs/profile events), each with OpenTelemetry instrumentation on and off, fault-free and with a server exception at two gates, plus Close / IsClosed / cancel from a foreign goroutine, plus two independent clients running the same insert / select side by side under each compression method (Disabled, None, LZ4, LZ4HC, ZSTD; quick tier: default schedule only), plus pool scenarios of C11 (two holders incl. a broken connection and a double release, the health checker destroying expired connections); every schedule up to the deviation bound is executed in a -race build; a report counts when both conflicting accesses are in ch-go packages. distinct_nontrivial = executions.")
+	c.Rule("query scenarios of C04 (insert with progress, streamed insert, LZ4 insert, select, select with logs/profile events), each with OpenTelemetry instrumentation on and off, fault-free, with a server exception at two gates and with the server repeating its header block during an insert, plus Close / IsClosed / cancel from a foreign goroutine, plus two independent clients running the same insert / select side by side under each compression method (Disabled, None, LZ4, LZ4HC, ZSTD; quick tier: default schedule only), plus pool scenarios of C11 (two holders incl. a broken connection, a double release and a stale release after 63 / 64 acquire-release cycles, the health checker destroying expired connections); every schedule up to the deviation bound is executed in a -race build; a report counts when both conflicting accesses are in ch-go packages. distinct_nontrivial = executions.")
 	rl := newRaceLog()
 	if rl == nil && c.Flavour == "sched-race" {
 		harness("C12 needs GORACE=log_path=...")
@@ -307,6 +312,11 @@ func C12(c *vk.Ctx) {
 				jobs = append(jobs, job{fmt.Sprintf("%s/otel=%v/exc@%d", s.name, otel, g), body12(s, otel, "", fault{kind: "exc", k: g}), "C12/" + s.name, false})
 			}
 		}
+		if strings.HasPrefix(s.name, "insert") && (!quick || s.name == "insert") {
+			for _, g := range []int{3, 4} {
+				jobs = append(jobs, job{fmt.Sprintf("%s/otel=false/extradata@%d", s.name, g), body12(s, false, "", fault{kind: "extradata", k: g}), "C12/" + s.name, false})
+			}
+		}
 		for _, foreign := range []string{"close", "cancel", "isclosed"} {
 			if quick && s.name != "select" {
 				continue
@@ -336,6 +346,9 @@ func C12(c *vk.Ctx) {
 		{maxConns: 1, progs: []int{hOK, hTransport}},
 		{maxConns: 1, progs: []int{hOK, hDoubleRelease}},
 		{maxConns: 2, progs: []int{hOK, hOK}, period: time.Second, idleTime: time.Hour, lifetime: 3 * time.Second, idleWait: 5 * time.Second},
+		// a stale second Release after the connection went round 64 times, next to another holder
+		{maxConns: 1, progs: []int{hStaleRelease, hOK}, cycles: 63},
+		{maxConns: 1, progs: []int{hStaleRelease, hOK}, cycles: 64},
 	}
 	if !quick {
 		poolScns = append(poolScns, poolScn{maxConns: 2, progs: []int{hOK, hTransport}}, poolScn{maxConns: 1, progs: []int{hTransport, hPoolDo}, closer: true})
